@@ -309,9 +309,17 @@ impl TxInputsBuilder {
     pub(crate) fn get_used_plutus_lang_versions(&self) -> BTreeSet<Language> {
         let mut used_langs = BTreeSet::new();
         for input_with_wit in self.required_witnesses.scripts.values() {
-            for (_, script_wit) in input_with_wit {
-                if let Some(ScriptWitnessType::PlutusScriptWitness(plutus_witness)) = script_wit {
-                    used_langs.insert(plutus_witness.script.language());
+            for (input, script_wit) in input_with_wit {
+                // the same filter as get_plutus_input_scripts: a witness left behind by an input that was registered
+                // again as a key or Byron input is not emitted, so its language is not in use
+                let still_script_input = match self.inputs.get(input) {
+                    Some((_, hash)) => hash.is_some(),
+                    None => false,
+                };
+                if still_script_input {
+                    if let Some(ScriptWitnessType::PlutusScriptWitness(plutus_witness)) = script_wit {
+                        used_langs.insert(plutus_witness.script.language());
+                    }
                 }
             }
         }
